@@ -160,6 +160,7 @@ func run(c *Case) []snapx.Problem {
 	}
 	defer m2.Destroy()
 	m2.Relaxed = true
+	m2.CrashImage = true
 	m2.NoRestore = c.NR
 	{
 		touched := map[int]bool{c.Crash.Key: true, c.Crash.Name: true}
